@@ -109,6 +109,63 @@ def _poison(acc):
     acc.seen(("poison", "done"))
 
 
+def _soak_and_blocks(acc, tier):
+    """(1) a long history: N distinct argument tuples, then the first ones again (a bounded pool / ring / counter that wraps
+    shows only after thousands of distinct calls); (2) arguments on hash-block and buffer-size boundaries."""
+    sp = T.lib().sp
+    N = 6000 if tier == "quick" else 70000
+    first = []
+    for i in range(N):
+        t = (b"idA-%d" % (i % 97), b"idB-%d" % (i // 97), b"X", b"Y", b"K", b"pw-%d" % (i % 13))
+        got = T.observe(sp.finalize_SPAKE2, *t)
+        if i < 64:
+            first.append(t)
+        if got != ("ok", ref_asym(*t)):
+            acc.violation("C17/asymmetric-formula", {"what": "finalize_SPAKE2 differs from the formula on call #%d of a long history" % i,
+                          "replay": {"fn": "asym", "args": list(t)}, "expected": ref_asym(*t), "observed": got})
+            break
+        s = (b"idS-%d" % i, b"m1", b"m2-%d" % (i % 5), b"K", b"pw")
+        got = T.observe(sp.finalize_SPAKE2_symmetric, *s)
+        if got != ("ok", ref_sym(*s)):
+            acc.violation("C17/symmetric-formula", {"what": "finalize_SPAKE2_symmetric differs from the formula on call #%d of a long history" % i,
+                          "replay": {"fn": "sym", "args": list(s)}, "expected": ref_sym(*s), "observed": got})
+            break
+    acc.n(states=2 * N, transitions=2 * N)
+    for t in first:
+        got = T.observe(sp.finalize_SPAKE2, *t)
+        acc.n(transitions=1)
+        if got != ("ok", ref_asym(*t)):
+            acc.violation("C17/asymmetric-after-long-history", {"what": "finalize_SPAKE2 is wrong for arguments used before, after %d other distinct calls" % N,
+                          "replay": {"fn": "asym-history", "n": N, "args": list(t)}, "expected": ref_asym(*t), "observed": got})
+            break
+    acc.seen(("soak", N))
+    sizes = [55, 56, 63, 64, 65, 119, 127, 128, 4095, 4096, 4097, 8191, 8192, 8193, 65535, 65536, 65537] + ([] if tier == "quick" else [12289, 131073, 1 << 20])
+    for n in sizes:
+        for pos in range(6):
+            a = [b"a", b"b", b"X", b"Y", b"K", b"p"]
+            a[pos] = bytes([(i * 7 + pos) % 251 for i in range(n)])
+            b = list(a)
+            b[pos] = a[pos][:-1] + bytes([a[pos][-1] ^ 1])
+            for t in (a, b):
+                got = T.observe(sp.finalize_SPAKE2, *t)
+                acc.n(states=1, transitions=1)
+                if got != ("ok", ref_asym(*t)):
+                    acc.violation("C17/asymmetric-formula", {"what": "finalize_SPAKE2 differs from the formula for an argument of %d bytes (position %d)" % (n, pos),
+                                  "replay": {"fn": "asym-size", "n": n, "pos": pos}, "expected": ref_asym(*t), "observed": got})
+            if pos < 5:
+                sa = [b"i", b"m1", b"m2", b"K", b"p"]
+                sa[pos] = bytes([(i * 7 + pos) % 251 for i in range(n)])
+                sb = list(sa)
+                sb[pos] = sa[pos][:-1] + bytes([sa[pos][-1] ^ 1])
+                for t in (sa, sb):
+                    got = T.observe(sp.finalize_SPAKE2_symmetric, *t)
+                    acc.n(states=1, transitions=1)
+                    if got != ("ok", ref_sym(*t)):
+                        acc.violation("C17/symmetric-formula", {"what": "finalize_SPAKE2_symmetric differs from the formula for an argument of %d bytes (position %d)" % (n, pos),
+                                      "replay": {"fn": "sym-size", "n": n, "pos": pos}, "expected": ref_sym(*t), "observed": got})
+        acc.seen(("size", n))
+
+
 def _extra(acc):
     sp = T.lib().sp
     # byte pairs that expose signed comparison, length-first sorting, prefix handling
@@ -162,11 +219,14 @@ def run(tier, seed):
     core.pmerge(_sym_task, ALPHA, acc)
     _extra(acc)
     _poison(acc)
+    _soak_and_blocks(acc, tier)
     return acc
 
 
 def replay(rec):
     r = T.unjson(rec["replay"])
     sp = T.lib().sp
+    if r["fn"] in ("asym-size", "sym-size", "asym-history"):
+        return "re-run the check (needs the history / the large argument)"
     f = sp.finalize_SPAKE2 if r["fn"] == "asym" else sp.finalize_SPAKE2_symmetric
     return T.observe(f, *r["args"])
